@@ -4,6 +4,7 @@ pub mod keykeeper;
 pub mod provision;
 pub mod rig;
 pub mod robust;
+pub mod status;
 pub mod telemetry;
 
 use crate::verif;
